@@ -135,6 +135,8 @@ type pathState struct {
 	hashConc   []hashConc
 	sleeps     int
 	crashed    bool
+	recordIOOn bool
+	ioLog      []value
 	fsNoYield  bool
 	ufTables   map[*value]string
 	absLoc     *value
